@@ -16,11 +16,21 @@ if ! cargo build --bins >"$LOG" 2>&1; then
 fi
 rm -f "$LOG"
 case "$MODE" in
-  quick|thorough)
+  quick)
     if [ -x "/verif/checks/$ID.sh" ]; then
       exec "/verif/checks/$ID.sh" "$MODE"
     fi
     exec /verif/target/debug/vcheck "$ID" --tier "$MODE" ;;
+  thorough)
+    # generated search first; the coverage-guided campaigns only if it held
+    if [ -x "/verif/checks/$ID.sh" ]; then
+      "/verif/checks/$ID.sh" "$MODE"
+    else
+      /verif/target/debug/vcheck "$ID" --tier "$MODE"
+    fi
+    rc=$?
+    [ $rc -ne 0 ] && exit $rc
+    exec /verif/checks/fuzz_campaign.sh "$ID" ;;
   replay)
     exec /verif/target/debug/vcheck "$ID" --replay "${3:?replay file}" ;;
   *) echo "unknown mode $MODE"; exit 2 ;;
